@@ -23,7 +23,7 @@ Section EquivGrow.
   Proof.
     unfold runm. evm.
     cbv [grow bind ret lift_m vunit ptr_val layout_val lift_opt panic ub fst snd HEADER_ALIGN].
-    crush.
+    sym.
   Qed.
 
 End EquivGrow.
